@@ -717,17 +717,19 @@ def combine_chunk_results_for_factorized_key(
     >>> print(combined)  # [15.0, 35.0, 55.0]
     """
     combined = chunks[0]
+    reducer = getattr(ScalarFuncs, reduce_func_name)
 
     if counts is None:
-        counts = np.zeros(len(chunks))
-        combined_count = 0
-    else:
-        combined_count = counts[0]
+        for chunk in chunks[1:]:
+            combined = reduce_array_pair(combined, chunk, reducer)
+        return combined, 0
 
+    combined_count = counts[0]
     for chunk, count in zip(chunks[1:], counts[1:]):
-        combined = reduce_array_pair(
-            combined, chunk, getattr(ScalarFuncs, reduce_func_name)
-        )
+        # a partial without observations (count == 0) only holds the initial value and
+        # must not take part in the merge, whichever side it is on
+        merged = reduce_array_pair(combined, chunk, reducer, counts=combined_count)
+        combined = np.where(count > 0, merged, combined)
         combined_count = combined_count + count
 
     return combined, combined_count
